@@ -36,6 +36,14 @@ use std::collections::{BTreeMap, HashMap, HashSet, VecDeque};
 /// Logging target for the file.
 const LOG_TARGET: &str = "litep2p::ipfs::kademlia::query::get_record";
 
+/// Current time (an offset clock under the verification cfg).
+#[cfg(not(litep2p_verif))]
+fn now() -> std::time::Instant {
+    std::time::Instant::now()
+}
+#[cfg(litep2p_verif)]
+use crate::verif::clock::now;
+
 /// The configuration needed to instantiate a new [`GetRecordContext`].
 #[derive(Debug)]
 pub struct GetRecordConfig {
@@ -177,7 +185,7 @@ impl GetRecordContext {
         };
 
         if let Some(record) = record {
-            if !record.is_expired(std::time::Instant::now()) {
+            if !record.is_expired(now()) {
                 self.records.push_back(PeerRecord {
                     peer: peer.peer,
                     record,
